@@ -1215,6 +1215,10 @@ def c12_selfoverlap_layouts():
         h, q = W // 2, W // 4
         Ls.append(Layout(W, [Field("a", T_uint(W), [(0, h), (q, h)], None, "rw")], tag=f"self-overlapping list as wide as the storage on u{W}"))
         Ls.append(Layout(W, [Field("a", T_uint(8), [(1, 4), (3, 4)], None, "rw"), Field("b", T_uint(3), [(W - 3, 3)], None, "rw")], tag=f"self-overlapping list plus a scalar on u{W}"))
+    # the shared bits end on the top bit of the storage integer (a carry out of them has nowhere to go)
+    for W in (8, 16, 32, 64, 128):
+        Ls.append(Layout(W, [Field("a", T_uint(6), [(W - 4, 4), (W - 2, 2)], None, "rw")], tag=f"self-overlapping list [{W - 4}..={W - 1}, {W - 2}..={W - 1}] at the top of u{W}"))
+        Ls.append(Layout(W, [Field("a", T_uint(2), [(W - 1, 1), (W - 1, 1)], None, "rw"), Field("v", T_uint(4), [(0, 2), (1, 2)], (2, 3, True), "rw")], tag=f"list naming the top bit of u{W} twice, and an array of self-overlapping lists"))
     return Ls
 
 
@@ -1564,6 +1568,9 @@ def plan_c11(tier, seed):
             if N >= 12 and N + up + 4 <= 128:
                 cand.append(Layout(N, [Field("f", T_uint(N + up + 4), [(0, N + up), (8, 4)], None, "rw")], tag=f"overlapping list [0..={N + up - 1}, 8..=11] on u{N}: the entry that starts lower reaches above bit {N - 1}"))
                 cand.append(Layout(N, [Field("f", T_uint(N + up), [(0, 4), (4, N + up - 4)], None, "rw")], tag=f"list [0..=3, 4..={N + up - 1}] on u{N}: the LAST entry reaches above bit {N - 1}"))
+            if N >= 9:
+                cand.append(Layout(N, [Field("f", T_uint(8), [(N - 4, 4)], None, "rw")], tag=f"u8 over the top 4 bits of u{N} (type wider than the range)"))
+                cand.append(Layout(N, [Field("f", T_int(16), [(N - 8, 8)], None, "rw"), Field("lo", T_bool(), [(0, 1)], None, "rw")], tag=f"i16 over the top 8 bits of u{N} (type wider than the range)"))
             e_ = full_enum("E2", 2)
             cand.append(Layout(N, [Field("f", FType("enum", 2, e_), [(N - 1, 2)], None, "rw"), Field("lo", T_bool(), [(0, 1)], None, "rw")], aux=[e_], tag=f"2-bit enum at bits {N - 1}..={N} of u{N}"))
             cand.append(Layout(N, [Field("f", FType("nested", st - N, None, "Inner"), [(N, st - N)], None, "rw")], aux=[nested_decl("Inner", st - N)], tag=f"nested bitfield in the hidden storage bits of u{N}"))
